@@ -169,10 +169,12 @@ def rt_float(v: float) -> bool:
 
 def rt_misc(i: int, thr: int, proto: int) -> bool:
     """
-    pre: 0 <= i < 10 and 0 <= thr <= 40 and 0 <= proto <= 5
+    pre: 0 <= i < 16 and 0 <= thr <= 40 and 0 <= proto <= 5
     post: _
     """
-    vals = [None, True, False, (1, 'a', b'b', None), [1, [2, [3]]], {'k': (1, 2)}, 2 ** 63, -2 ** 63 - 1, 2 ** 200, frozenset([1, 2])]
+    from symdc import ch_types as T
+    vals = [None, True, False, (1, 'a', b'b', None), [1, [2, [3]]], {'k': (1, 2)}, 2 ** 63, -2 ** 63 - 1, 2 ** 200, frozenset([1, 2]),
+            T.SubStr('abc'), T.SubBytes(b'abc'), T.SubFloat(1.5), T.SubInt(7), T.Colour.BLUE, T.SubStr('a' * 50)]
     v = pick(vals, i)
     core, fs, root = ch_env.setup()
     try:
